@@ -146,6 +146,9 @@ class ArraySlice(_ArrayExpr):
                 break
             if isinstance(idx, slice):
                 new_idx = sp.Tuple(*normalize(idx, axis_size))
+            elif isinstance(idx, sp.Tuple):
+                # an already normalized slice, e.g. when rebuilding with func(*args)
+                new_idx = idx
             else:
                 new_idx = _sympify(_normalize_index(idx, axis_size))
             normalized_indices.append(new_idx)
